@@ -1,10 +1,10 @@
 /-
 Driver for C16.  Request line:
-  cfg=<share><leak> fuel=<n> P=<program in prefix notation, tokens separated by one space>
+  cfg=<share><leak><lexical> fuel=<n> P=<program in prefix notation, tokens separated by one space>
 program tokens:
   lit <int> | dlit <int> | elit <int> | inst <integer|decimal|double|boolean> E | tt | ff | emp | var <n> | dot | add E E | sub E E | mul E E | gt E E | eq E E
   | cat E E | ite E E E | for <x> E E | let <x> E E | fn <tok> <k> <p1>..<pk> E | named <builtin>
-  | call E <k> A1..Ak   (A = `?` or E) | par E | smap E E | forEach E E | filter E E
+  | call E <k> A1..Ak   (A = `?` or E) | spart <builtin> <k> A1..Ak | par E | smap E E | forEach E E | filter E E
   | foldL E E E | foldR E E E | pairs E E E | sortK E E | apply E <k> E1..Ek
   (argument order as in XPath: forEach S F, foldL S Z F, pairs S1 S2 F, sortK S F, apply F [M…])
 Answer:  model=<result> flags=<stale><scope><arity><focus><misc> spec=<result>
@@ -18,6 +18,7 @@ open EPV.Proto EPV.Clo
 def parseBuiltin : String → Option Builtin
   | "abs" => some .abs | "count" => some .count | "sum" => some .sum | "reverse" => some .reverse
   | "head" => some .head | "tail" => some .tail | "exists" => some .exists_ | "empty" => some .empty_
+  | "remove" => some .remove | "insert-before" => some .insertBefore
   | _ => none
 
 mutual
@@ -67,6 +68,11 @@ partial def parseE : List String → Option (Expr × List String)
     match r with
     | k :: r => do let k ← nat? k; let (as, r) ← parseArgs k r; pure (.call f as, r)
     | [] => none
+  | "spart" :: b :: k :: r => do
+    let b ← parseBuiltin b
+    let k ← nat? k
+    let (as, r) ← parseArgs k r
+    pure (.spart b as, r)
   | "apply" :: r => do
     let (f, r) ← parseE r
     match r with
@@ -107,7 +113,8 @@ def answer (line : String) : String :=
   | some fuel, [_, ptxt] =>
     match parseE (ptxt.trimAscii.toString.splitOn " ") with
     | some (p, []) =>
-      let cfg : Cfg := { share := cfgS.startsWith "1", leak := cfgS.endsWith "1" }
+      let cs := cfgS.toList
+      let cfg : Cfg := { share := cs.getD 0 '0' == '1', leak := cs.getD 1 '0' == '1', lexical := cs.getD 2 '0' == '1' }
       let o := implEval cfg fuel p
       let f := o.flags
       s!"model={showRes o.result} flags={bit f.stale}{bit f.scope}{bit f.arity}{bit f.focus}{bit f.misc} spec={showRes (specEval fuel p)}"
